@@ -1,5 +1,13 @@
+//! Drivers for C19 (arithmetic e-graph rewrites, patronus-egraphs) and C20 (guarded value
+//! summaries, patronus-dse).
+mod c19;
+mod c20;
+
 use pvcore::run::*;
 
 fn main() {
-    main_with(&[])
+    main_with(&[
+        Entry { id: "C19", level: "exploration", meta: c19::meta, run: c19::run, replay: c19::replay },
+        Entry { id: "C20", level: "model_checking", meta: c20::meta, run: c20::run, replay: c20::replay },
+    ])
 }
